@@ -254,8 +254,9 @@ def tok_rules(repo, tier="quick"):
             raise AnalysisError("ring branch no longer calls collect_ring_number", fi.where(node))
         c0, n0 = calls[0]
         crn = repo.function("read_fragments:collect_ring_number")
-        atom_param = crn.positional_params[2] if len(crn.positional_params) > 2 else "node_count"
-        arg_atom = call_arg(c0, 2, atom_param)
+        roles = _ring_roles(crn)
+        atom_param = roles["atom"] if roles else (crn.positional_params[2] if len(crn.positional_params) > 2 else "node_count")
+        arg_atom = call_arg(c0, list(crn.positional_params).index(atom_param) if atom_param in crn.positional_params else 2, atom_param)
         ok_atom = isinstance(arg_atom, ast.Name) and arg_atom.id == T.PREV
         (obs.append(ob_ok("TOK.T2-ring", fi, c0, construct="collect_ring_number(iter, token, previous atom, rings)", instance="atom",
                           reason="ring closures belong to the atom written before them")) if ok_atom else
@@ -480,6 +481,28 @@ class _Iter:
         self.text, self.pos = text, 0
 
 
+def _ring_roles(crn):
+    """which parameter of collect_ring_number is the iterator, the current token, the atom and the ring table: read off
+    the body (next(<iterator>) / <iterator>.peek(), <table>[key].append(<atom>)), so that a reordered signature is followed"""
+    P = list(crn.positional_params)
+    roles = {}
+    for x in ast.walk(crn.node):
+        if isinstance(x, ast.Call) and isinstance(x.func, ast.Name) and x.func.id == "next" and x.args and isinstance(x.args[0], ast.Name) and x.args[0].id in P:
+            roles.setdefault("iter", x.args[0].id)
+        if isinstance(x, ast.Call) and isinstance(x.func, ast.Attribute) and x.func.attr == "peek" and isinstance(x.func.value, ast.Name) and x.func.value.id in P:
+            roles.setdefault("iter", x.func.value.id)
+        if isinstance(x, ast.Call) and isinstance(x.func, ast.Attribute) and x.func.attr == "append" and isinstance(x.func.value, ast.Subscript) and \
+                isinstance(x.func.value.value, ast.Name) and x.func.value.value.id in P and len(x.args) == 1 and isinstance(x.args[0], ast.Name) and x.args[0].id in P:
+            roles.setdefault("rings", x.func.value.value.id)
+            roles.setdefault("atom", x.args[0].id)
+    rest = [p_ for p_ in P if p_ not in roles.values()]
+    if len(roles) == 3 and len(set(roles.values())) == 3 and len(rest) == 1:
+        roles["token"] = rest[0]
+        return roles
+    # the signature of today's tree
+    return {"iter": P[0], "token": P[1], "atom": P[2], "rings": P[3]} if len(P) >= 4 else None
+
+
 def _collect_ring(repo):
     """T0 for the ring branch: collect_ring_number returns exactly the ring characters it consumed and leaves the iterator
     in front of the first character that is not part of a ring marker.  Decided by abstract execution of the function on
@@ -488,6 +511,7 @@ def _collect_ring(repo):
     fi = repo.function("read_fragments:collect_ring_number")
     P = fi.positional_params
     need(len(P) >= 4, "collect_ring_number no longer takes (iterator, token, node, rings)", fi)
+    R = _ring_roles(fi)
     cases = []
     for head in ("1", "12", "%10", "%10%11", "1%10", "%102", "%10%112", "2%10%11"):
         for tail in ("", "C", ")", "(C)"):
@@ -522,7 +546,7 @@ def _collect_ring(repo):
         ev = Evaluator(call_hook=hook, load_hook=load)
         n += 1
         try:
-            kind, val = ev.run_function(fi.node, {P[0]: it, P[1]: text[0], P[2]: 7, P[3]: rings})
+            kind, val = ev.run_function(fi.node, {R["iter"]: it, R["token"]: text[0], R["atom"]: 7, R["rings"]: rings})
         except Unsupported as err:
             return [ob_undecided("TOK.T0-conservation", fi, construct="collect_ring_number on %r" % text, instance="ring-collect",
                                  reason="outside the evaluator's language: %s" % err)]
@@ -644,15 +668,18 @@ def _descriptor_rules(T, bb, darm, dnode):
     # the descriptor text: kind char + everything up to ']'
     tdefs = [d for d in fl.reaching(text_name, cfg.owner[id(ap)]) if d.kind != "unbound"]
     # a plain copy (text = collected) is followed to the variable the text was collected in
+    text_names = [text_name]
     for _hop in range(3):
         if len(tdefs) == 1 and tdefs[0].kind == "assign" and isinstance(tdefs[0].value, ast.Name) and tdefs[0].value.id != T.peek_var and \
                 tdefs[0].value.id in fl.locals and not tdefs[0].path:
             text_name = tdefs[0].value.id
+            text_names.append(text_name)
             tdefs = [d for d in fl.reaching(text_name, tdefs[0].node) if d.kind != "unbound"]
         else:
             break
     init_ok = any(d.kind == "assign" and isinstance(d.value, ast.Name) and d.value.id == T.peek_var for d in tdefs)
     acc_ok = False
+    acc_loop = acc_ch = None
     for d in tdefs:
         al = aug_like(d.ast) if d.ast is not None and isinstance(d.ast, (ast.AugAssign, ast.Assign)) else None
         if al and al[0] == text_name and al[1] is ast.Add and isinstance(al[2], ast.Name):
@@ -672,10 +699,17 @@ def _descriptor_rules(T, bb, darm, dnode):
                         isinstance(tst.comparators[0], ast.Constant) and tst.comparators[0].value == "]" and adv and \
                         not [g for g in guards_of(fi, d.node) if g[2] in cfg.loops.get(loops[0].id, set())]:
                     acc_ok = True
+                    acc_loop, acc_ch = loops[0], ch
     # the same collection started from the empty string: text = ""; while ch != ']': text += ch; ch = next(iter), with the kind read off text[:1]
     empty_start = [d for d in tdefs if d.kind == "assign" and isinstance(d.value, ast.Constant) and d.value.value == ""]
-    if not init_ok and empty_start and acc_ok and T.peek_var.replace(" ", "") in (text_name + "[:1]", text_name + "[0]", text_name + "[0:1]"):
+    if not init_ok and empty_start and acc_ok and T.peek_var.replace(" ", "") in [tn + sl for tn in text_names for sl in ("[:1]", "[0]", "[0:1]")]:
         init_ok = True
+    # ... or with the kind character as the first character the loop sees: text = ""; ch = <kind char>; while ch != ']': text += ch; ch = next(iter)
+    if not init_ok and empty_start and acc_ok:
+        body = cfg.loops.get(acc_loop.id, set())
+        outer = [d for d in fl.reaching(acc_ch, acc_loop.id) if d.kind != "unbound" and d.node not in body]
+        if len(outer) == 1 and outer[0].kind == "assign" and isinstance(outer[0].value, ast.Name) and outer[0].value.id == T.peek_var and not outer[0].path:
+            init_ok = True
     extra_defs = [d for d in tdefs if not ((d.kind == "assign" and isinstance(d.value, ast.Name) and d.value.id == T.peek_var) or d.kind == "aug" or
                                            (d.kind == "assign" and isinstance(d.value, ast.Constant) and d.value.value == "" and init_ok) or
                                            (d.ast is not None and isinstance(d.ast, ast.Assign) and aug_like(d.ast)))]
